@@ -8,6 +8,7 @@ cfg keys
   ints      : {'r': [lo, hi]}
   handlers  : [[bus, pattern, name, script, opts]]   script = list of steps (see _run_script)
   forwards  : [[src, dst]]                    src.on('*', dst.dispatch)
+  typed_forwards_first : [[src, dst, cls]]    src.on(cls, dst.dispatch), registered before the handlers
   main      : list of steps executed by main  (same step language + main-only steps)
   actors    : {name: script}                  external tasks started with main
   first_use : {bus: 'main'|'handler'}         informational
@@ -79,6 +80,10 @@ def build(ctx):
     ctx.exc_objects = {}
     ctx.bus_reads = []
     ctx.returned = {}
+    # forwards that apply to one event class and are registered before the bus's own handlers (so they run first)
+    for (src, dst, cls) in cfg.get('typed_forwards_first', []):
+        ctx.buses[src].on(CLASSES[cls], ctx.buses[dst].dispatch)
+        ctx.forwards = getattr(ctx, 'forwards', []) + [(src, dst, CLASSES[cls].__name__)]
     for (bus, pattern, name, script, *opt) in cfg.get('handlers', []):
         opts = opt[0] if opt else {}
         _register(ctx, bus, pattern, name, script, opts)
